@@ -158,11 +158,27 @@ func runC18(c *core.Ctx) {
 	}
 	if fn := c.MustFn("C18.jail", "(*coreV2/state/candidates.Candidates).Punish"); fn != nil {
 		ok := false
-		for _, s := range core.Sites(fn) {
-			if strings.HasSuffix(s.Callee, ".jainUntil") {
-				if isOK, _ := isBlockPlusPeriod(s.Arg(0), "GetJailPeriod"); isOK {
-					ok = true
+		// the call that stores its argument in Candidate.JailedUntil (whatever it is called)
+		for _, s := range c.GroupSites(fn) {
+			h := s.Common.StaticCallee()
+			if h == nil || h.Blocks == nil || s.Arg(0) == nil {
+				continue
+			}
+			setsJail := false
+			for _, b := range h.Blocks {
+				for _, in := range b.Instrs {
+					if st, isStore := in.(*ssa.Store); isStore {
+						if fa, isFA := st.Addr.(*ssa.FieldAddr); isFA && fieldNameOf(fa) == "JailedUntil" {
+							setsJail = true
+						}
+					}
 				}
+			}
+			if !setsJail {
+				continue
+			}
+			if isOK, _ := isBlockPlusPeriod(s.Arg(0), "GetJailPeriod"); isOK {
+				ok = true
 			}
 		}
 		c.Check(ok, "C18.jail", "Punish/jail-until", fn.Pos(), "Punish jails until height + GetJailPeriod()", "Punish no longer jails until height + GetJailPeriod()")
@@ -190,7 +206,7 @@ func runC18(c *core.Ctx) {
 					}
 					call, isCall := core.Unwrap(bin.X).(*ssa.Call)
 					k, isK := core.ConstInt(bin.Y)
-					if isCall && isK && strings.HasSuffix(core.CalleeName(&call.Call), ".CountAbsentTimes") && bin.Op == token.GTR && f.Truth && k == 12 {
+					if isCall && isK && strings.HasSuffix(core.CalleeName(core.NormCall(&call.Call)), ".CountAbsentTimes") && bin.Op == token.GTR && f.Truth && k == 12 {
 						return true
 					}
 				}
@@ -411,7 +427,7 @@ func isBlockPlusPeriodPath(v ssa.Value, period, suffix string) (bool, string) {
 	a, b := bin.X, bin.Y
 	isPeriod := func(x ssa.Value) bool {
 		call, ok := core.Unwrap(x).(*ssa.Call)
-		return ok && core.CalleeName(&call.Call) == "coreV2/types."+period
+		return ok && core.CalleeName(core.NormCall(&call.Call)) == "coreV2/types."+period
 	}
 	if isPeriod(a) {
 		a, b = b, a
@@ -479,7 +495,7 @@ func checkAbsentWindowPersisted(c *core.Ctx, rule string) {
 					}
 					switch x := cond.(type) {
 					case *ssa.Call:
-						if methodNameOfCall(x) == "GetIndex" && len(x.Call.Args) == 2 && core.SameValue(x.Call.Args[1], idx) {
+						if methodNameOfCall(x) == "GetIndex" && len(core.NormCall(&x.Call).Args) == 2 && core.SameValue(core.NormCall(&x.Call).Args[1], idx) {
 							if k, ok := core.Unwrap(val).(*ssa.Const); ok && k.Value != nil {
 								newBit := k.Value.String() == "true"
 								if truth == !newBit {
@@ -496,7 +512,7 @@ func checkAbsentWindowPersisted(c *core.Ctx, rule string) {
 							a, b := core.Unwrap(x.X), core.Unwrap(x.Y)
 							isGet := func(v ssa.Value) bool {
 								call, ok := v.(*ssa.Call)
-								return ok && methodNameOfCall(call) == "GetIndex" && core.SameValue(call.Call.Args[1], idx)
+								return ok && methodNameOfCall(call) == "GetIndex" && core.SameValue(core.NormCall(&call.Call).Args[1], idx)
 							}
 							if (isGet(a) && core.SameValue(b, val) || isGet(b) && core.SameValue(a, val)) && ((x.Op == token.NEQ) == truth) {
 								good = true
